@@ -185,9 +185,12 @@ def run(ctx, repo, tier):
     if not seen:
         ctx.ok("EXC", "C19.escape", f"no AttributeError / IndexError / TypeError escapes in any of the {contexts} contexts "
                f"(sizes x modes) x {len(GETTERS)} getters + construction", "molgri/space/fullgrid.py:FullGrid")
-    ctx.check(shape_ok > 0, "LAYOUT", "C19.shapes", f"{shape_ok} getter results have exactly the expected shape "
-              f"({shape_unknown} matrix shapes not derivable, not counted)", "molgri/space/fullgrid.py:FullGrid._get_N_N",
-              witness="no result shape could be derived")
+    if shape_ok > 0:
+        ctx.ok("LAYOUT", "C19.shapes", f"{shape_ok} getter results have exactly the expected shape "
+               f"({shape_unknown} matrix shapes not derivable, not counted)", "molgri/space/fullgrid.py:FullGrid._get_N_N")
+    else:
+        ctx.inconclusive("LAYOUT", "C19.shapes", "no getter result shape could be derived", "molgri/space/fullgrid.py:FullGrid._get_N_N",
+                         witness=f"{shape_unknown} shapes not derivable")
     # ---------------- Cartesian mode: border polygons may have no vertex at all; the polygon helpers assert an (N, 3) shape
     import ast as _ast
     pg = repo.cls(FG, "PositionGrid")
